@@ -2,6 +2,7 @@ package nc
 
 import (
 	"go/constant"
+	"go/token"
 	"go/types"
 	"strings"
 
@@ -27,6 +28,8 @@ type retLeaf struct {
 	Block *ssa.BasicBlock
 	// Phi is the innermost phi node the value enters (nil for a value returned directly).
 	Phi *ssa.Phi
+	// Els, when set by c19PairLeaves, are the elements of the returned fresh slice on this way of returning.
+	Els []ssa.Value
 }
 
 func retLeaves(fn *ssa.Function, idx int) []retLeaf {
@@ -580,4 +583,379 @@ func c19OnEmpty(tm *Termer, lf retLeaf, of string) bool {
 		}
 	}
 	return false
+}
+
+// ---- third round: a slice filled branch by branch, values produced by a function literal ----
+
+// c19FreshStores: v is a slice of exactly n elements that the function created itself (as for
+// c19FreshElems) and nothing but this function's own constant-index element stores can write its
+// storage (it is not passed on, stored anywhere or re-sliced with bounds before it is returned).
+// Returns the index each such store writes. Unlike c19FreshElems it says nothing about how often
+// or where an element is stored: that is decided per path by c19PairLeaves.
+func c19FreshStores(v ssa.Value, n int) (map[*ssa.Store]int, bool) {
+	for {
+		if ct, ok := v.(*ssa.ChangeType); ok {
+			v = ct.X
+			continue
+		}
+		break
+	}
+	alias := map[ssa.Value]bool{}
+	var work []ssa.Value
+	add := func(x ssa.Value) {
+		if !alias[x] {
+			alias[x] = true
+			work = append(work, x)
+		}
+	}
+	isConst := func(v ssa.Value, k int64) bool {
+		c, ok := v.(*ssa.Const)
+		return ok && c.Value != nil && c.Value.Kind() == constant.Int && c.Int64() == k
+	}
+	whole := func(x *ssa.Slice) bool {
+		return (x.Low == nil || isConst(x.Low, 0)) && (x.High == nil || isConst(x.High, int64(n))) && (x.Max == nil || isConst(x.Max, int64(n)))
+	}
+	switch x := v.(type) {
+	case *ssa.Slice:
+		if !whole(x) {
+			return nil, false
+		}
+		al, ok := x.X.(*ssa.Alloc)
+		if !ok {
+			return nil, false
+		}
+		arr, ok := deref(al.Type()).Underlying().(*types.Array)
+		if !ok || arr.Len() != int64(n) {
+			return nil, false
+		}
+		add(al)
+		add(x)
+	case *ssa.MakeSlice:
+		k, ok := x.Len.(*ssa.Const)
+		if !ok || k.Value == nil || k.Value.Kind() != constant.Int || k.Int64() != int64(n) {
+			return nil, false
+		}
+		add(x)
+	default:
+		return nil, false
+	}
+	stores := map[*ssa.Store]int{}
+	for len(work) > 0 {
+		a := work[0]
+		work = work[1:]
+		refs := a.Referrers()
+		if refs == nil {
+			return nil, false
+		}
+		for _, ref := range *refs {
+			switch x := ref.(type) {
+			case *ssa.Return, *ssa.DebugRef:
+			case *ssa.ChangeType:
+				add(x)
+			case *ssa.Phi:
+				add(x)
+			case *ssa.Slice:
+				if x.X != a || !whole(x) {
+					return nil, false
+				}
+				add(x)
+			case *ssa.IndexAddr:
+				k, isC := x.Index.(*ssa.Const)
+				if x.X != a || !isC || k.Value == nil || k.Value.Kind() != constant.Int || k.Int64() < 0 || k.Int64() >= int64(n) {
+					return nil, false
+				}
+				for _, r2 := range *x.Referrers() {
+					switch y := r2.(type) {
+					case *ssa.Store:
+						if y.Addr != x {
+							return nil, false // the element address itself is stored somewhere
+						}
+						stores[y] = int(k.Int64())
+					case *ssa.UnOp, *ssa.DebugRef:
+					default:
+						return nil, false
+					}
+				}
+			default:
+				return nil, false
+			}
+		}
+	}
+	return stores, true
+}
+
+// c19PairLeaves turns one way a function returns a fresh n-element slice into the list of ways
+// the CONTENTS of that slice are produced. When the elements are written once, before control
+// reaches the leaf (a literal, or make + stores in a dominating block), that is the leaf itself
+// with its elements. When they are written branch by branch (`res := make([]T, n); if c { res[0],
+// res[1] = a, b } else { res[0], res[1] = c, d }; return res`) every acyclic path from the
+// function's entry to the return is one way: its elements are the last values stored on that path
+// (each index must be stored on it) and its guards are the branch outcomes taken on the path. A
+// function with a cycle on the way, or a slice that is merged by a phi, is not split (ok=false).
+func c19PairLeaves(fn *ssa.Function, lf retLeaf, n int) ([]retLeaf, bool) {
+	if els, ok := c19FreshElems(lf.Val, n, lf.Block); ok {
+		lf.Els = els
+		return []retLeaf{lf}, true
+	}
+	if lf.Phi != nil || len(fn.Blocks) == 0 {
+		return nil, false
+	}
+	stores, ok := c19FreshStores(lf.Val, n)
+	if !ok {
+		return nil, false
+	}
+	paths, complete := EnumRegionPaths(fn, fn.Blocks[0], func(*ssa.BasicBlock) bool { return false }, 64)
+	if !complete {
+		return nil, false
+	}
+	var out []retLeaf
+	for _, ip := range paths {
+		if ip.End != "return" {
+			return nil, false // a loop on the way: the stores of a path are not a fixed sequence
+		}
+		if ip.Blocks[len(ip.Blocks)-1] != lf.Ret.Block() {
+			continue // another return: its own leaf
+		}
+		els := make([]ssa.Value, n)
+		for _, b := range ip.Blocks {
+			for _, in := range b.Instrs {
+				if st, isSt := in.(*ssa.Store); isSt {
+					if k, mine := stores[st]; mine {
+						els[k] = st.Val
+					}
+				}
+			}
+		}
+		for _, e := range els {
+			if e == nil {
+				return nil, false // an element keeps its zero value on this path
+			}
+		}
+		v := lf
+		v.Els = els
+		v.Guards = append(append([]Guard{}, lf.Guards...), ip.Conds...)
+		out = append(out, v)
+	}
+	return out, len(out) > 0
+}
+
+// c19LitCall: t is a call of a function literal of the function under analysis that captures
+// nothing - the callee is fixed (the SSA call is static: the variable or parameter the literal was
+// bound to at an inlined call site has this literal as its only value) and what it returns is a
+// function of its arguments and the heap alone.
+func c19LitCall(tm *Termer, t *Term) (*ssa.Function, bool) {
+	if t == nil || t.Op != "call" {
+		return nil, false
+	}
+	c, ok := t.V.(*ssa.Call)
+	if !ok || c.Call.IsInvoke() {
+		return nil, false
+	}
+	f, ok := c.Call.Value.(*ssa.Function)
+	if !ok || f.Parent() != tm.Fn || len(f.FreeVars) != 0 || f.Blocks == nil || f.Signature.Recv() != nil {
+		return nil, false
+	}
+	if f.Signature.Results().Len() != 1 || len(f.Params) != len(t.Args) || f.Recover != nil {
+		return nil, false
+	}
+	return f, true
+}
+
+// substParams: a copy of t (a term over the parameters of a literal) with parameter i replaced by args[i].
+func substParams(t *Term, args []*Term) *Term {
+	if t == nil {
+		return nil
+	}
+	if t.Op == "param" && t.Idx >= 0 && t.Idx < len(args) {
+		return args[t.Idx]
+	}
+	c := *t
+	c.Args = make([]*Term, len(t.Args))
+	for i, a := range t.Args {
+		c.Args[i] = substParams(a, args)
+	}
+	return &c
+}
+
+// c19Alt is one value a stored expression can be.
+type c19Alt struct {
+	T *Term
+	// ZeroLeaf: the constant 0 returned by a function literal on one of its paths (the other
+	// paths return the other alternatives).
+	ZeroLeaf bool
+}
+
+// c19ValueAlts: the origin terms of v with calls of capture-free function literals of the
+// function replaced by what the literal returns, expressed over the call's arguments: a literal
+// with a single way of returning is substituted wherever it occurs in the term, a literal with
+// several (`if o.S == nil { return 0 }; return float64(o.S.Age)`) at the top gives one alternative
+// per way. The result of such a call IS that value, so a rule that holds for every alternative
+// holds for the call.
+func c19ValueAlts(tm *Termer, v ssa.Value) []c19Alt {
+	var inline func(t *Term, depth int) *Term
+	leavesOf := func(t *Term, depth int) ([]*Term, []bool, bool) {
+		f, ok := c19LitCall(tm, t)
+		if !ok || depth > 3 {
+			return nil, nil, false
+		}
+		ftm := NewTermer(f)
+		var out []*Term
+		var zero []bool
+		for _, lf := range retLeaves(f, 0) {
+			lt := ftm.Of(lf.Val)
+			if lt.Has(func(x *Term) bool { return x.Op == "free" || x.Op == "loop" || x.Op == "unknown" }) {
+				return nil, nil, false
+			}
+			c, isC := lf.Val.(*ssa.Const)
+			z := isC && c.Value != nil && (c.Value.Kind() == constant.Int || c.Value.Kind() == constant.Float) && constant.Sign(c.Value) == 0
+			out = append(out, substParams(lt, t.Args))
+			zero = append(zero, z)
+		}
+		return out, zero, len(out) > 0
+	}
+	inline = func(t *Term, depth int) *Term {
+		if t == nil {
+			return nil
+		}
+		if ls, _, ok := leavesOf(t, depth); ok && len(ls) == 1 {
+			return inline(ls[0], depth+1)
+		}
+		c := *t
+		c.Args = make([]*Term, len(t.Args))
+		for i, a := range t.Args {
+			c.Args[i] = inline(a, depth)
+		}
+		return &c
+	}
+	t := tm.Of(v)
+	if ls, zero, ok := leavesOf(t, 0); ok && len(ls) > 1 {
+		var out []c19Alt
+		for i, l := range ls {
+			out = append(out, c19Alt{T: inline(l, 1), ZeroLeaf: zero[i]})
+		}
+		return out
+	}
+	return []c19Alt{{T: inline(t, 0)}}
+}
+
+// c19OncePerElement: the store writes each element of its slice at most once during the whole
+// call - its index is the counter of the only loop around it (the header phi, or that phi plus a
+// constant), the counter only ever grows (every value it receives from inside the loop is itself
+// plus a positive constant), and the loop is not nested in another one. Storing the zero value
+// through such a store into a slice that make() just zeroed and that no other instruction writes
+// leaves the element as it was: it is the same as not storing.
+func c19OncePerElement(fn *ssa.Function, st *ssa.Store) bool {
+	ia, ok := st.Addr.(*ssa.IndexAddr)
+	if !ok {
+		return false
+	}
+	loops := Loops(fn)
+	l := InnermostLoop(loops, st.Block())
+	if l == nil {
+		return false
+	}
+	for _, o := range loops {
+		if o != l && o.Blocks[l.Header] {
+			return false
+		}
+	}
+	posConst := func(v ssa.Value) bool {
+		c, ok := v.(*ssa.Const)
+		return ok && c.Value != nil && c.Value.Kind() == constant.Int && constant.Sign(c.Value) > 0
+	}
+	step := func(v ssa.Value, ph *ssa.Phi) bool {
+		b, ok := v.(*ssa.BinOp)
+		return ok && b.Op == token.ADD && b.X == ssa.Value(ph) && posConst(b.Y)
+	}
+	var ph *ssa.Phi
+	switch x := ia.Index.(type) {
+	case *ssa.Phi:
+		ph = x
+	case *ssa.BinOp:
+		p, isPhi := x.X.(*ssa.Phi)
+		if !isPhi || !step(x, p) {
+			return false
+		}
+		ph = p
+	default:
+		return false
+	}
+	if ph.Block() != l.Header {
+		return false
+	}
+	inside := 0
+	for i, e := range ph.Edges {
+		if l.Blocks[ph.Block().Preds[i]] {
+			inside++
+			if !step(e, ph) {
+				return false
+			}
+		}
+	}
+	return inside > 0
+}
+
+// c19OnlyWriter: the storage of the freshly made slice ms is written by the store st and by nothing
+// else - under every name the function has for it (type changes) it is only indexed (element loads,
+// and the one store), returned, or inspected by len/cap; it is not passed to a call, appended to,
+// re-sliced, copied into or stored anywhere.
+func c19OnlyWriter(ms *ssa.MakeSlice, st *ssa.Store) bool {
+	seen := map[ssa.Value]bool{}
+	work := []ssa.Value{ms}
+	for len(work) > 0 {
+		a := work[0]
+		work = work[1:]
+		if seen[a] {
+			continue
+		}
+		seen[a] = true
+		refs := a.Referrers()
+		if refs == nil {
+			return false
+		}
+		for _, ref := range *refs {
+			switch x := ref.(type) {
+			case *ssa.Return, *ssa.DebugRef:
+			case *ssa.ChangeType:
+				work = append(work, x)
+			case *ssa.Call:
+				if b, isB := x.Call.Value.(*ssa.Builtin); !isB || (b.Name() != "len" && b.Name() != "cap") {
+					return false
+				}
+			case *ssa.IndexAddr:
+				if x.X != a || x.Referrers() == nil {
+					return false
+				}
+				for _, r2 := range *x.Referrers() {
+					switch y := r2.(type) {
+					case *ssa.Store:
+						if y != st || y.Addr != ssa.Value(x) {
+							return false
+						}
+					case *ssa.UnOp, *ssa.DebugRef:
+					default:
+						return false
+					}
+				}
+			default:
+				return false
+			}
+		}
+	}
+	return true
+}
+
+// c19ExpandPairs replaces every leaf that returns a fresh n-element slice by the ways its contents
+// are produced (c19PairLeaves); a leaf that is not such a slice is kept as it is, without elements.
+func c19ExpandPairs(fn *ssa.Function, leaves []retLeaf, n int) []retLeaf {
+	var out []retLeaf
+	for _, lf := range leaves {
+		if sub, ok := c19PairLeaves(fn, lf, n); ok {
+			out = append(out, sub...)
+		} else {
+			lf.Els = nil
+			out = append(out, lf)
+		}
+	}
+	return out
 }
